@@ -851,19 +851,39 @@ func (c *cursor[K, V]) Forward() iterator.Iterator[KVPair[K, V]] {
 	return &forwardIterator[K, V]{c: *c}
 }
 
+// ForwardWhile is like Forward, but the iterator ends before the first key for which inRange returns
+// false. inRange is consulted before the value of that key is read, so the iterator never reads the
+// value of a key outside of the range.
+func (c *cursor[K, V]) ForwardWhile(inRange func(K) bool) iterator.Iterator[KVPair[K, V]] {
+	return &forwardIterator[K, V]{c: *c, inRange: inRange}
+}
+
 type forwardIterator[K any, V any] struct {
 	c cursor[K, V]
+	// If non-nil, iteration ends before the first key that this returns false for.
+	inRange func(K) bool
+	// Set once inRange has returned false.
+	done bool
 }
 
 func (iter *forwardIterator[K, V]) Next() (KVPair[K, V], bool) {
+	var zero KVPair[K, V]
+	if iter.done {
+		return zero, false
+	}
 	if iter.c.lost() {
 		iter.c.SeekFirstGreaterOrEqual(iter.c.Key())
 	}
 	if iter.c.curr == nil {
-		var zero KVPair[K, V]
 		return zero, false
 	}
 	k := iter.c.Key()
+	// Checked before reading the value: k is outside of the range, so somebody else may be
+	// Put()ing to it concurrently.
+	if iter.inRange != nil && !iter.inRange(k) {
+		iter.done = true
+		return zero, false
+	}
 	// Safe since we already made sure !iter.c.lost() by reseeking above.
 	v := iter.c.valueUnchecked()
 	iter.c.Next()
@@ -874,19 +894,39 @@ func (c *cursor[K, V]) Backward() iterator.Iterator[KVPair[K, V]] {
 	return &backwardIterator[K, V]{c: *c}
 }
 
+// BackwardWhile is like Backward, but the iterator ends before the first key for which inRange
+// returns false. inRange is consulted before the value of that key is read, so the iterator never
+// reads the value of a key outside of the range.
+func (c *cursor[K, V]) BackwardWhile(inRange func(K) bool) iterator.Iterator[KVPair[K, V]] {
+	return &backwardIterator[K, V]{c: *c, inRange: inRange}
+}
+
 type backwardIterator[K any, V any] struct {
 	c cursor[K, V]
+	// If non-nil, iteration ends before the first key that this returns false for.
+	inRange func(K) bool
+	// Set once inRange has returned false.
+	done bool
 }
 
 func (iter *backwardIterator[K, V]) Next() (KVPair[K, V], bool) {
+	var zero KVPair[K, V]
+	if iter.done {
+		return zero, false
+	}
 	if iter.c.lost() {
 		iter.c.SeekLastLessOrEqual(iter.c.Key())
 	}
 	if iter.c.curr == nil {
-		var zero KVPair[K, V]
 		return zero, false
 	}
 	k := iter.c.Key()
+	// Checked before reading the value: k is outside of the range, so somebody else may be
+	// Put()ing to it concurrently.
+	if iter.inRange != nil && !iter.inRange(k) {
+		iter.done = true
+		return zero, false
+	}
 	// Safe since we already made sure !iter.c.lost() by reseeking above.
 	v := iter.c.valueUnchecked()
 	iter.c.Prev()
@@ -907,12 +947,12 @@ func (t *btree[K, V]) Range(lower Bound[K], upper Bound[K]) iterator.Iterator[KV
 	}
 	switch upper.type_ {
 	case boundInclude:
-		return iterator.While(c.Forward(), func(pair KVPair[K, V]) bool {
-			return t.compare(pair.Key, upper.key) <= 0
+		return c.ForwardWhile(func(k K) bool {
+			return t.compare(k, upper.key) <= 0
 		})
 	case boundExclude:
-		return iterator.While(c.Forward(), func(pair KVPair[K, V]) bool {
-			return t.compare(pair.Key, upper.key) < 0
+		return c.ForwardWhile(func(k K) bool {
+			return t.compare(k, upper.key) < 0
 		})
 	case boundUnbounded:
 		return c.Forward()
@@ -935,12 +975,12 @@ func (t *btree[K, V]) RangeReverse(lower Bound[K], upper Bound[K]) iterator.Iter
 	}
 	switch lower.type_ {
 	case boundInclude:
-		return iterator.While(c.Backward(), func(pair KVPair[K, V]) bool {
-			return t.compare(pair.Key, lower.key) >= 0
+		return c.BackwardWhile(func(k K) bool {
+			return t.compare(k, lower.key) >= 0
 		})
 	case boundExclude:
-		return iterator.While(c.Backward(), func(pair KVPair[K, V]) bool {
-			return t.compare(pair.Key, lower.key) > 0
+		return c.BackwardWhile(func(k K) bool {
+			return t.compare(k, lower.key) > 0
 		})
 	case boundUnbounded:
 		return c.Backward()
